@@ -50,7 +50,7 @@ PLAN = {
     'C03': _p(quick=90, thorough=700),
     'C04': _p(quick=60, thorough=900),
     'C02': _p(quick=110, thorough=2750),
-    'C01': _p(quick=90, thorough=850,
+    'C01': _p(quick=75, thorough=850,
               required_classes={'all': ['rule:' + r for r in RULES13] + ['rule:IdentityRule', 'rule:HomothetyRule']}),
     'C12': _p(quick=150, thorough=2500,
               required_classes={'all': ['explicit_out', 'inferred_out', 'pack', 'mask', 'multi_array',
